@@ -292,14 +292,14 @@ def run(ctx):
     BS._create_fn, BS.py = real_create, real_py
     return
   ndir = len(classes)
-  nrand = (60 if quick else 260) if rp is None else 0
+  nrand = (50 if quick else 170) if rp is None else 0
   tries = 0
   while len(classes) < ndir + nrand and tries < 3 * nrand:
     tries += 1
     gen_class(rng.choice([1, 2, 2, 3, 3, 4]))
   # families: several declarations that share ONE class name and (mostly) one field set, but differ in field order, in the
   # pairing of names and types, in one type, or in nesting; plus an identical re-declaration.  Each is checked against its own declaration.
-  nfam = 0 if rp is not None else (5 if quick else 24)
+  nfam = 0 if rp is not None else (5 if quick else 18)
   for k in range(nfam):
     for _ in range(50):
       base = rand_fields(rng.choice([1, 2, 2, 3]), rng.choice([150, 64, 40, 16]))
@@ -374,7 +374,7 @@ def run(ctx):
   e_cases, e_meta = [], []      # ==        (T, v, w, observed)
   s_cases, s_meta = [], []      # scenarios
   hash_raised = []
-  nvals = 5 if quick else 10
+  nvals = 4 if quick else 10
   def viol_value(kind, c, what, extra):
     h = hashlib.sha1(json.dumps([kind, c.spec(), extra.get('value'), extra.get('bits')], default=str).encode()).hexdigest()[:10]
     ctx.violation(f'C06:{kind}:{h}', what, dict({'shape': c.spec()}, **extra))
@@ -538,7 +538,7 @@ def run(ctx):
       # ---- copies: clone / deepcopy / @= / <<= , then an in-place write to one leaf of one side
       va = v; vb = v_unpack(s, rng.getrandbits(W) if bi % 2 else full ^ bv)
       all_ops = ['poke', 'clone', 'deepcopy', 'imatmul', 'imatmul_bits', 'ilshift_bits', 'ilshift_noflip', 'ilshift_flip', 'ilshift_poke_flip']
-      for op in (all_ops if (not quick or c.idx < ndir) else rng.sample(all_ops, 4)):
+      for op in (all_ops if (not quick or (c.idx < ndir and bi < 3)) else rng.sample(all_ops, 2)):
         scenario(c, op, va, vb, 'auto', 'auto')
     # ---- default-constructed and partly default-constructed instances, as destination, as source, and written in place
     zero = v_unpack(s, 0)
@@ -549,8 +549,139 @@ def run(ctx):
                                    ('imatmul', zero, vr, 'default', 'auto'), ('imatmul', vr, zero, 'auto', 'default'), ('imatmul', vp, vr, 'partial', 'auto'),
                                    ('ilshift_flip', zero, vr, 'default', 'auto'), ('ilshift_flip', vr, zero, 'auto', 'default'),
                                    ('ilshift_poke_flip', vp, vr, 'partial', 'args'), ('clone', zero, zero, 'default', 'default'), ('deepcopy', vp, vp, 'partial', 'partial')):
-        if quick and c.idx >= ndir and rp is None and rng.random() < 0.5: continue
+        if quick and c.idx >= ndir and rp is None and rng.random() < 0.6: continue
         scenario(c, op, va_, vb_, ha, hb)
+
+  # ---------------- operation sequences on a pool of instances of one type ----------------
+  q_cases, q_meta = [], []
+  def sh_nodes(s, prefix=()):
+    """paths to every Bits / struct node below the root (list nodes are passed through: their elements are the nodes)"""
+    out = []
+    if s[0] == 's':
+      for i, (_, f) in enumerate(s[1].fields):
+        q = prefix + (('F', i),)
+        if f[0] != 'l': out.append((q, f))
+        out += sh_nodes(f, q)
+    elif s[0] == 'l':
+      for i in range(s[1]):
+        q = prefix + (('I', i),)
+        if s[2][0] != 'l': out.append((q, s[2]))
+        out += sh_nodes(s[2], q)
+    return out
+  def gen_sequence(c, nsteps):
+    """a random interleaving of constructions, copies, whole-struct and in-place partial writes, <<= / _flip and plain observations"""
+    s = ('s', c); W = c.width; nodes = sh_nodes(s)
+    pool = [v_unpack(s, 0), v_unpack(s, rng.getrandbits(W)), v_unpack(s, rng.getrandbits(W))]   # few values: the same one is built / unpacked repeatedly
+    seq = []; pending = set()
+    def new():
+      v = rng.choice(pool)
+      return {'op': 'new', 'value': v, 'how': 'default' if (is_zero(v) and rng.random() < 0.5) else rng.choice(['args', 'partial', 'from_bits', 'from_bits'])}
+    seq.append(new()); n = 1
+    if rng.random() < 0.7: seq.append(new()); n = 2
+    while len(seq) < nsteps:
+      r = rng.random(); i = rng.randrange(n); j = rng.randrange(n)
+      if pending and r < 0.3:
+        i = rng.choice(sorted(pending)); pending.discard(i); seq.append({'op': 'flip', 'i': i})
+      elif r < 0.42:
+        pth, sh = rng.choice(nodes)
+        v = v_unpack(sh, rng.getrandbits(sh_width(sh)))
+        hows = ['inplace@=', 'attr@='] + ([] if i in pending else ['<<=flip'])
+        seq.append({'op': 'write', 'i': i, 'path': [list(x) for x in pth], 'value': v, 'how': rng.choice(hows)})
+      elif r < 0.50 and n < 4: seq.append(new()); n += 1
+      elif r < 0.58 and n < 4: seq.append({'op': 'clone', 'i': i, 'how': rng.choice(['clone', 'deepcopy'])}); n += 1
+      elif r < 0.65 and n < 4: seq.append({'op': 'reunpack', 'i': i}); n += 1
+      elif r < 0.75: seq.append({'op': 'imatmul', 'i': i, 'j': j, 'how': rng.choice(['struct', 'struct', 'bits'])})
+      elif r < 0.85: seq.append({'op': 'ilshift', 'i': i, 'j': j, 'how': rng.choice(['struct', 'struct', 'bits'])}); pending.add(i)
+      else: seq.append({'op': 'nop'})
+    for d in seq: d['observe'] = rng.random() < 0.75
+    seq[-1]['observe'] = True
+    return seq
+  def run_sequence(c, seq):
+    s = ('s', c); objs = []; ops = []; obs = []; pyobs = []
+    def fail(kind, k, what, extra=None):
+      h = hashlib.sha1(json.dumps([kind, c.spec(), seq], default=str).encode()).hexdigest()[:10]
+      ctx.violation(f'C06:sequence-{kind}:{h}', f'operation sequence, step {k} ({seq[k]["op"] if k < len(seq) else "?"}): {what}',
+                    dict({'shape': c.spec(), 'sequence': seq, 'failing_step': k}, **(extra or {})))
+    for k, d in enumerate(seq):
+      op = d['op']
+      try:
+        if op == 'new':
+          o, _ = mk_inst(c, d['value'], d['how']); objs.append(o); ops.append(f'QNew ({v_term(s, d["value"])})')
+        elif op == 'clone':
+          objs.append(objs[d['i']].clone() if d['how'] == 'clone' else copy.deepcopy(objs[d['i']])); ops.append(f'QClone {d["i"]}')
+        elif op == 'reunpack':
+          src = objs[d['i']]; cur = observe(s, src)
+          objs.append(c.pycls.from_bits(src.to_bits())); ops.append(f'QNew ({v_term(s, cur)})')
+        elif op == 'write':
+          pth = [tuple(x) for x in d['path']]
+          sh = s
+          for kk, ii in pth: sh = sh[1].fields[ii][1] if kk == 'F' else sh[2]
+          val = build(sh, d['value'], 0.0, True)
+          node = leaf_obj(s, objs[d['i']], pth)
+          if d['how'] == 'inplace@=': operator.imatmul(node, val)
+          elif d['how'] == '<<=flip':
+            operator.ilshift(node, val); node._flip()
+          else:
+            par_shape = s
+            for kk, ii in pth[:-1]: par_shape = par_shape[1].fields[ii][1] if kk == 'F' else par_shape[2]
+            par = leaf_obj(s, objs[d['i']], pth[:-1]); kk, ii = pth[-1]
+            if kk == 'F':
+              nm = par_shape[1].fields[ii][0]; setattr(par, nm, operator.imatmul(getattr(par, nm), val))     # x.f @= v
+            else: par[ii] = operator.imatmul(par[ii], val)                                                   # x.l[k] @= v
+          ops.append(f'QWrite {d["i"]} {TR.t_path(pth)} ({v_term(sh, d["value"])})')
+        elif op == 'imatmul':
+          objs[d['i']] = operator.imatmul(objs[d['i']], objs[d['j']] if d['how'] == 'struct' else objs[d['j']].to_bits()); ops.append(f'QImatmul {d["i"]} {d["j"]}')
+        elif op == 'ilshift':
+          objs[d['i']] = operator.ilshift(objs[d['i']], objs[d['j']] if d['how'] == 'struct' else objs[d['j']].to_bits()); ops.append(f'QIlshift {d["i"]} {d["j"]}')
+        elif op == 'flip':
+          objs[d['i']]._flip(); ops.append(f'QFlip {d["i"]}')
+        else: ops.append('QNop')
+        if not d.get('observe'):
+          obs.append('None'); pyobs.append(None); continue
+        vals = [(observe(s, o), packed(o)) for o in objs]
+        hv = [hash(o) for o in objs]
+        eqs, hs = [], []
+        for a in range(len(objs)):
+          for b in range(a + 1, len(objs)):
+            e = objs[a] == objs[b]
+            if type(e) is not bool or e != (objs[b] == objs[a]) or e == (objs[a] != objs[b]):
+              fail('eq', k, f'== / != inconsistent between instances {a} and {b}')
+            eqs.append(bool(e)); hs.append(hv[a] == hv[b])
+        for a, o in enumerate(objs):      # an equal instance obtained independently must compare and hash equal, whatever was done to o before
+          f = c.pycls.from_bits(o.to_bits())
+          if not (f == o) or not (o == f): fail('roundtrip', k, f'from_bits(x.to_bits()) != x for instance {a}', {'value': vals[a][0]})
+          elif hash(f) != hv[a]: fail('hash', k, f'instance {a} and an equal instance built by from_bits(x.to_bits()) have different hashes', {'value': vals[a][0]})
+        idl = [ids(s, o, []) for o in objs]
+        allid = [x for l in idl for x in l]
+        if len(set(allid)) != len(allid):
+          fail('alias', k, 'two positions (within one instance or across instances) hold the SAME sub-object', {'values': [v for v, _ in vals]})
+        obs.append('Some (' + coq_list([f'({v_term(s, v)}, {zlit(u)})' for v, u in vals]) + ', ' + coq_list(['true' if e else 'false' for e in eqs])
+                   + ', ' + coq_list(['true' if h else 'false' for h in hs]) + ')')
+        pyobs.append({'values': [v for v, _ in vals], 'to_bits': [hex(u) for _, u in vals], 'eq_pairs': eqs, 'hash_equal_pairs': hs})
+      except Exception as e:
+        fail('raise', k, f'raised {e!r}', {'traceback': traceback.format_exc()[-800:]})
+        return
+    q_cases.append(f'(T{c.idx}, {coq_list(ops)}, {coq_list(obs)})'); q_meta.append((c, seq, ops, pyobs))
+    for kq, d in enumerate(seq): ctx.count(('seq', c.spec(), json.dumps(seq[:kq + 1], default=str)), True, cls='seq:' + d['op'] + (':' + d['how'] if 'how' in d else ''))
+  for c in classes:
+    if rp is not None:
+      if c is classes[-1] and 'sequence' in rp: run_sequence(c, rp['sequence'])
+      if c is not classes[-1]: continue
+    for _ in range((3 if c.idx < ndir else 1) if quick else 3):
+      run_sequence(c, gen_sequence(c, rng.choice([8, 10, 12]) if quick else rng.choice([10, 14, 18])))
+  bad = ctx.coq_bad_indices('seq', imports, shape_defs, 'shape * list seq_op * list step_obs', q_cases,
+                            "let '(T, ops, obs) := c in seq_ok T ops obs", shard=25)
+  for i in bad[:6]:
+    c, seq, ops, pyobs = q_meta[i]
+    r = ctx.coq_eval('qexp', imports, shape_defs, [f"let '(T, ops, obs) := {q_cases[i]} in seq_run T ([], empty_store) ops obs 0"])
+    m = re.search(r'Some (\d+)', r[0]); k = int(m.group(1)) if m else 0
+    mv = ctx.coq_eval('qmod', imports, shape_defs, ['seq_model ' + coq_list(ops[:k + 1])])
+    h = hashlib.sha1(json.dumps(['seq', c.spec(), seq], default=str).encode()).hexdigest()[:10]
+    ctx.violation(f'C06:sequence:{h}', f'operation sequence diverges from the property at step {k} ({seq[k]}): observed {json.dumps(pyobs[k])[:300]}; '
+                  f'the model holds {mv[0][:300]} (== must agree with the packed values, equal instances must hash equal, copies must be independent)',
+                  {'shape': c.spec(), 'sequence': seq, 'failing_step': k, 'observed_at_step': pyobs[k], 'model_values_at_step': mv[0], 'steps_before': seq[:k + 1]})
+  if q_cases: ctx.sample({'kind': 'sequence', 'steps': q_meta[0][1][:6], 'coq': q_cases[0][:600]})
+  ctx.extra['cases_sequences'] = len(q_cases); ctx.extra['sequence_steps'] = sum(len(m[1]) for m in q_meta)
 
   def hexs(t):
     t = re.sub(r'\b\d{6,}\b', lambda m: hex(int(m.group(0))), t)
